@@ -607,6 +607,11 @@ impl Executor for Session {
                 // than being deferred to the caller's next attempt.
                 if self.nexus.store.has_poisoned_handle() {
                     let _ = self.nexus.store.reopen().await;
+                    // The statement that poisoned a handle could not remove
+                    // its own shells through it. Nothing is in flight under
+                    // the exclusive lock, so whatever is still `pending`
+                    // belongs to no transaction, exactly as on open.
+                    let _ = self.nexus.store.sweep_pending().await;
                 }
                 response
             }
